@@ -12,6 +12,7 @@ namespace Sqlize
 def benignErrors : List String :=
   [ swapOrderUnmodelled,
     "PARSE: COMMENT ON COLUMN is not MySQL",
+    "PARSE: ALTER COLUMN TYPE / SET DEFAULT / DROP NOT NULL is not in the MySQL vocabulary",
     "PARSE: statement rejected by the postgres grammar",
     "UNMODELLED sqlite DEFAULT (the reader stores a source position as the value)",
     "UNMODELLED sqlite column constraint",
@@ -116,6 +117,9 @@ theorem step_noPanic (m : Migration) (s : Stmt) (h : m.Inv) : NoPanic (step m s)
     unfold step
     exact noPanic_bind (Migration.removeIndex_safe m t _ h).noPanic (fun _ _ => noPanic_pure _)
   | commentOn t c text => unfold step; exact noPanic_err _ (by simp [benignErrors])
+  | alterType t c typ => unfold step; exact noPanic_err _ (by simp [benignErrors])
+  | setDefault t c d => unfold step; exact noPanic_err _ (by simp [benignErrors])
+  | dropNotNull t c => unfold step; exact noPanic_err _ (by simp [benignErrors])
 
 /-- **loading a MySQL script never panics** (from any consistent state, renames onto fresh names) -/
 theorem run_noPanic (ss : List Stmt) : ∀ (m : Migration), m.Inv → RenameFresh id step m ss → NoPanic (run m ss) := by
@@ -195,6 +199,9 @@ theorem step_noPanic (m : Migration) (s : Stmt) (h : m.Inv) : NoPanic (step m s)
   | createIndex t name cols uniq usingT => unfold step; exact (Migration.addIndex_safe m _ _ h).noPanic
   | dropIndex t name => unfold step; exact (Migration.removeIndex_safe m _ _ h).noPanic
   | commentOn t c text => unfold step; exact (Migration.addComment_safe m _ _ _ h).noPanic
+  | alterType t c typ => unfold step; exact (Migration.addColumn_safe m _ _ _ h).noPanic
+  | setDefault t c d => unfold step; exact (Migration.addColumn_safe m _ _ _ h).noPanic
+  | dropNotNull t c => unfold step; exact noPanic_pure _
 
 theorem steps_noPanic (ss : List Stmt) : ∀ (m : Migration), m.Inv → RenameFresh pgName step m ss →
     NoPanic (ss.foldlM step m) := by
@@ -264,6 +271,9 @@ theorem step_noPanic (m : Migration) (s : Stmt) (h : m.Inv) : NoPanic (step m s)
   | renameIndex t o n => unfold step; exact hun
   | dropIndex t name => unfold step; exact hun
   | commentOn t c text => unfold step; exact hun
+  | alterType t c typ => unfold step; exact hun
+  | setDefault t c d => unfold step; exact hun
+  | dropNotNull t c => unfold step; exact hun
 
 theorem run_noPanic (ss : List Stmt) (m : Migration) (h : m.Inv) : NoPanic (run m ss) :=
   foldlM_noPanic step (fun a s ha => step_noPanic a s ha) (fun a a' s ha hs => step_inv a a' s ha hs) ss m h
